@@ -13,7 +13,7 @@ out = ['# Seeded changes and what catches them', '',
        '| seed | round | change | quick check exit | violation signature | history |', '|---|---|---|---|---|---|']
 for m in rows:
     out.append('| %s | %s | %s | %s | %s | %s |' % (m['id'], m.get('round', 1), m['summary'].replace('|', '/')[:150], m['check_run']['exit'],
-                                                 m['check_run'].get('violation_signature') or '', (m.get('history') or '').replace('|', '/')))
+                                                 m['check_run'].get('violation_signature') or '', ((m.get('history') or '') + (' NEUTRALISED BY FIX ' + m['neutralised_by_fix'] if m.get('neutralised_by_fix') else '')).replace('|', '/')))
 n = len(rows)
 det = sum(1 for m in rows if m.get('detected_by_quick_check'))
 firstmiss = [m['id'] for m in rows if m.get('history') and ('first run exit 0' in m['history'] or 'missed by the first' in m['history'] or 'first run exit 0' in m['history'])]
